@@ -274,6 +274,14 @@ def directed_templates():
         tmpl([slot] + after)
         tmpl([("elem", "view", [], [("elem", "view", [("slot:", ref[0][5:], ref[1])], [txt(name)])] + after)])
         tmpl([("for", d("l"), name, None, None, ("elem", "view", [], [txt(name)]))] + after)
+    # slot forwarding (round 10, C05-9): a <slot> that reads its own `slot:` references in its name and in the values it passes on, next to a
+    # sibling element using the same name and a data field of that name read after it
+    for nm_, al in (("a", None), ("sv", "a"), ("item", None), ("x-y", "b")):
+        use = al if al else nm_
+        fwd = ("slot", d(use), [("slot:" + nm_, ("static", al) if al else None), ("v", d(use)), ("w", ("mixed", [("s", "<"), ("e", ("data", use)), ("s", ">")]))])
+        tmpl([("elem", "cmp-x", [], [("elem", "view", [("slot:", nm_, ("static", al) if al else None)], [txt(use)]), fwd, txt(use)])])
+        tmpl([fwd, ("slot", d(use), [("v", d(use))]), txt(use)])
+        tmpl([("for", d("l"), use, None, None, ("block", [fwd, txt(use)])), fwd])
     # sibling elements that declare slot values in different orders (the generator keeps ONE table of slot value variables per children list,
     # each element pushes its own names in its own order), and names that are read again after an inner scope of the same name has closed
     both = ("text", ("mixed", [("e", ("data", "a")), ("s", "|"), ("e", ("data", "b")), ("s", "|"), ("e", ("data", "sv"))]))
